@@ -29,17 +29,46 @@ class History:
         """asks the spec for encodings / expected events / canonical presentations"""
         self.spec = codec.spec_batch([(self.nodes, v) for v in self.values]) if self.values else []
 
-def make_ops(rng, h, allow_fail=True, allow_push=True, end=None):
-    """returns (ops as sexp strings, expected: list of indexes into h.values in file order, flush points)"""
+def damaged(rng, sv):
+    """a presentation damaged at a random leaf (Serialize impl failure or type mismatch): the value fails, possibly after
+    part of it -- out-of-order record fields, buffered byte sequences -- has been produced"""
+    toks = sv.split(" ")
+    cands = [i for i, t in enumerate(toks) if t.startswith(("(i32", "(str", "(i64", "(bool", "(f64", "(bytes", "(u32")) or t == "unit"]
+    if not cands:
+        return "fail"
+    i = rng.choice(cands)
+    depth_close = toks[i].count("(") - toks[i].count(")")
+    j = i
+    while depth_close > 0 and j + 1 < len(toks):
+        j += 1
+        depth_close += toks[j].count("(") - toks[j].count(")")
+    tail = ")" * (-depth_close) if depth_close < 0 else ""
+    return " ".join(toks[:i] + [rng.choice(["fail", "(seq none fail)", "(f32 0)", "(some fail)"]) + tail] + toks[j + 1:])
+
+def make_ops(rng, h, allow_fail=True, allow_push=True, end=None, reorder=False):
+    """returns (ops as sexp strings, expected: list of indexes into h.values in file order, flush points).
+    reorder: values are presented in random serde shapes (record fields out of order / omitted when nullable, structs or
+    maps, ...) and failing values are such presentations damaged at a random leaf -- the writer reuses one serializer
+    configuration, so what a failed value left behind must not leak into the next one"""
     ops, expected = [], []
     for i, s in enumerate(h.spec):
         r = rng.random()
-        if allow_fail and r < 0.15:
+        if allow_fail and reorder and r < 0.3:
+            pr = Presenter(rng, h.nodes, break_prob=0.0, by_type_prob=0.1)
+            ops.append(("fail", "(ser %s)" % damaged(rng, pr.pres(0, C.parse_sx(s["evalue"])[0]))))
+        elif allow_fail and r < 0.15:
             ops.append(("fail", "(ser %s)" % rng.choice(["fail", "(seq none fail)", "(struct %s 1 (%s fail))" % (C.hx("X"), C.hx("f0")),
                                                          "(newtype_struct %s (some fail))" % C.hx("N")])))
         if allow_push and r > 0.8:
             # pre-serialized push of this value (and maybe the next one)
             ops.append(("push", "(push %s 1)" % s["canon"], [i]))
+            expected.append(i)
+        elif reorder:
+            pr = Presenter(rng, h.nodes, break_prob=0.0, by_type_prob=0.1)
+            sv = pr.pres(0, C.parse_sx(s["evalue"])[0])
+            if pr.needs_slow or pr.expect != "value":
+                sv = s["present"]
+            ops.append(("ser", "(ser %s)" % sv, [i]))
             expected.append(i)
         else:
             # canonical presentation: the block bytes are then the canonical encodings
